@@ -36,7 +36,7 @@ fn files(ctx: &mut Ctx) {
 pub fn run(ctx: &mut Ctx) {
     bcprops::golden_files(ctx, Which::C03);
     files(ctx);
-    bcprops::direct_programs(ctx, Which::C03, if ctx.quick() { 2 } else { 3 });
+    bcprops::direct_programs(ctx, Which::C03, if ctx.quick() { 3 } else { 4 });
     let (syn_n, sem_n) = if ctx.quick() { (4, 3) } else { (5, 4) };
     bcprops::compiler_outputs(ctx, Which::C03, syn_n, sem_n);
 }
